@@ -200,6 +200,7 @@ impl Shrinker {
                 OpKind::Open { re: ReRef::Shared(i), .. }
                 | OpKind::Find { re: ReRef::Shared(i), .. }
                 | OpKind::Replace { re: ReRef::Shared(i), .. }
+                | OpKind::Burst { re: ReRef::Shared(i), .. }
                 | OpKind::CloneRegex { re: i, .. }
                 | OpKind::Compile { re: i, .. } => fix(i),
                 OpKind::ReplaceNested { re, inner, .. } => {
@@ -241,6 +242,7 @@ impl Shrinker {
                 | OpKind::Replace { hay, .. }
                 | OpKind::ReplaceNested { hay, .. }
                 | OpKind::Rewrite { hay, .. }
+                | OpKind::Burst { hay, .. }
                 | OpKind::Compile { hay, .. } => fix(hay),
                 _ => {}
             });
@@ -262,6 +264,7 @@ impl Shrinker {
                     OpKind::ReplaceNested { re, hay, .. } => vec![OpKind::Find { re: *re, hay: *hay }],
                     OpKind::Replace { re, hay, .. } => vec![OpKind::Find { re: *re, hay: *hay }],
                     OpKind::Compile { re, hay } => vec![OpKind::Find { re: ReRef::Shared(*re), hay: *hay }],
+                    OpKind::Burst { re, hay, n } if *n > 2 => vec![OpKind::Find { re: *re, hay: *hay }, OpKind::Burst { re: *re, hay: *hay, n: *n / 2 }, OpKind::Burst { re: *re, hay: *hay, n: *n - 1 }],
                     _ => vec![],
                 };
                 for k in cands {
@@ -279,7 +282,7 @@ impl Shrinker {
             for i in 0..w.threads[t].len() {
                 let mut c = w.clone();
                 let changed = match &mut c.threads[t][i].kind {
-                    OpKind::Open { re, .. } | OpKind::Find { re, .. } | OpKind::Replace { re, .. } => {
+                    OpKind::Open { re, .. } | OpKind::Find { re, .. } | OpKind::Replace { re, .. } | OpKind::Burst { re, .. } => {
                         if let ReRef::Clone(_) = re {
                             *re = ReRef::Shared(0);
                             true
